@@ -2,6 +2,7 @@ package main
 
 import (
 	"fmt"
+	"os"
 	"math"
 	"math/big"
 	"strconv"
@@ -62,6 +63,8 @@ type MonSwaps struct {
 	queueLen int
 	checkedHeight int64
 }
+
+var debugC04 = os.Getenv("ELYSSIM_DEBUG_C04") != ""
 
 func newMonSwaps(s *Sim) *MonSwaps { return &MonSwaps{sim: s, seenKeys: map[string]int{}} }
 
@@ -377,8 +380,21 @@ func (m *MonSwaps) matchRequests(s *Sim, eb *ExecBlock, swaps []*swapEvt) {
 	for _, r := range m.reqs {
 		requesters[r.sender] = true
 	}
-	// index of swaps by sender
+	// exact-in requests first: their stated input identifies the settlement exactly (amounts are
+	// made unique by the workload), whereas a small exact-out amount can coincide with the output
+	// of an unrelated exact-in swap of the same sender
+	ordered := make([]*swapReq, 0, len(m.reqs))
 	for _, r := range m.reqs {
+		if r.exactIn {
+			ordered = append(ordered, r)
+		}
+	}
+	for _, r := range m.reqs {
+		if !r.exactIn {
+			ordered = append(ordered, r)
+		}
+	}
+	for _, r := range ordered {
 		n := len(r.routesIn)
 		if !r.exactIn {
 			n = len(r.routesOut)
@@ -429,6 +445,14 @@ func (m *MonSwaps) matchRequests(s *Sim, eb *ExecBlock, swaps []*swapEvt) {
 			continue
 		}
 		if requesters[e.sender] || s.W.ByAddr[e.sender] != nil {
+			if debugC04 {
+				for _, r := range m.reqs {
+					fmt.Printf("DEBUG req tx=%d exactIn=%v sender=%s rcpt=%s in=%s min=%s out=%s max=%s settled=%d\n", r.tx, r.exactIn, shortAddr(r.sender), shortAddr(r.recipient), r.tokenIn, r.minOut, r.tokenOut, r.maxIn, r.settled)
+				}
+				for _, x := range swaps {
+					fmt.Printf("DEBUG swap pool=%d sender=%s rcpt=%s in=%s out=%s used=%v\n", x.pool, shortAddr(x.sender), shortAddr(x.recipient), x.in, x.out, x.used)
+				}
+			}
 			s.Violate("C04", "settlement_without_request", culprit, "height %d: swap %s -> %s on pool %d debited %s although no request accepted in this block explains it (executed twice, or a request lingering from an earlier block); requests of this block: %d", eb.Height, e.in, e.out, e.pool, shortAddr(e.sender), len(m.reqs))
 		}
 	}
